@@ -558,8 +558,14 @@ def main(ctx, replay):
         text = hkgen.render(items, rng)
         gens.append((items, text, g.wild))
     corpus = corpus_candidates(C.REPO)
-    texts = [t for _, t, _ in gens] + [b for _, b in corpus]
-    origin = ["gen"] * len(gens) + ["corpus"] * len(corpus)
+    # single LINES of 60 000 to 300 000 bytes (an inline certificate bundle in vars, a long raw: secret, a long comment): longer than any
+    # default line buffer; judged on the implementation (the lexer model is not run on them: 'long' origin)
+    longs = []
+    for n in (60000, 66000, 70000, 300000):
+        longs.append(('ingress {\n  listen ":8080"\n}\npull_api {\n  listen ":9443"\n  auth token "raw:%s"\n}\n"/a" {\n  pull { path /p }\n}\n' % ("k" * n)).encode())
+        longs.append(('# %s\ningress {\n  listen ":8080"\n}\nvars {\n  PEM "%s"\n}\npull_api {\n  listen ":9443"\n  auth token "raw:t"\n}\n"/a" {\n  pull { path /p }\n}\n' % ("c" * n, "A" * n)).encode())
+    texts = [t for _, t, _ in gens] + [b for _, b in corpus] + longs
+    origin = ["gen"] * len(gens) + ["corpus"] * len(corpus) + ["long"] * len(longs)
 
     phase("generate")
     # ---- 2. the implementation on every text
@@ -839,12 +845,14 @@ def main(ctx, replay):
     rej_cap = 120 if quick else 100000
     lex_idx = []
     for i in range(len(texts)):
+        if origin[i] == "long":
+            continue
         if res[i]["parse_ok"] or origin[i] == "gen":
             lex_idx.append(i)
         elif rej_cap > 0 and len(texts[i]) < 3000:
             rej_cap -= 1
             lex_idx.append(i)
-    lex_all = [(("t", i), lex_t[i]) for i in lex_idx] + [(("f", i), lex_f[i]) for n_, i in enumerate(fkeys) if (not quick) or origin[i] == "corpus" or n_ % 2 == 0] + \
+    lex_all = [(("t", i), lex_t[i]) for i in lex_idx] + [(("f", i), lex_f[i]) for n_, i in enumerate(fkeys) if origin[i] != "long" and ((not quick) or origin[i] == "corpus" or n_ % 2 == 0)] + \
               [(("s", i), lex_s[i]) for i in range(len(stream))]
     # dedupe by source
     seen_src = {}
